@@ -25,7 +25,12 @@ def run_one(mu, with_tests):
         s = open(path).read()
         if s.count(mu["old"]) != 1:
             return {"id": mu["id"], "status": f"PATCH-DOES-NOT-APPLY ({s.count(mu['old'])} matches)"}
-        open(path, "w").write(s.replace(mu["old"], mu["new"]))
+        s = s.replace(mu["old"], mu["new"])
+        for old2, new2 in mu.get("more", []):
+            if s.count(old2) != 1:
+                return {"id": mu["id"], "status": "PATCH-DOES-NOT-APPLY (more)"}
+            s = s.replace(old2, new2)
+        open(path, "w").write(s)
         out = {"id": mu["id"], "desc": mu["desc"], "checks": {}}
         env = dict(os.environ, VERIF_REPO_SRC=os.path.join(d, "src"))
         imp = subprocess.run(["/venv/bin/python", "-c", "import tensora"], env=dict(env, PYTHONPATH=os.path.join(d, "src")),
